@@ -299,6 +299,16 @@ impl RCtlCore {
         self.shared.push('D', inst);
     }
 }
+/// this engine has its own controllers for the first six kinds of declared data only
+fn six_ctl(ops: &[Op]) -> Vec<Op> {
+    ops.iter()
+        .map(|o| match o {
+            Op::Batch { tag, name, deps, ctl, t, n, inner } => Op::Batch { tag: *tag, name: name.clone(), deps: deps.clone(), ctl: *ctl % 6, t: *t, n: *n, inner: six_ctl(inner) },
+            o => o.clone(),
+        })
+        .collect()
+}
+
 macro_rules! rctl {
     ($n:ident, $d:ty) => {
         struct $n(RCtlCore);
@@ -329,7 +339,7 @@ struct RBuild {
     built: Built,
 }
 fn empty_built() -> Built {
-    Built { builder: None, infos: BTreeMap::new(), order: BTreeMap::new(), model_layouts: BTreeMap::new(), model_debug: BTreeMap::new(), real_debug: BTreeMap::new(), diffs: vec![], iters: BTreeMap::new() }
+    Built { builder: None, infos: BTreeMap::new(), order: BTreeMap::new(), model_layouts: BTreeMap::new(), model_debug: BTreeMap::new(), real_debug: BTreeMap::new(), diffs: vec![], qdiffs: vec![], iters: BTreeMap::new() }
 }
 impl RBuild {
     fn info(&mut self, tag: usize, name: &str, t: u8, is_batch: bool, is_tl: bool, parent: Option<usize>) {
@@ -607,7 +617,7 @@ pub fn child_main() -> ! {
             let res = match lines.first().and_then(|l| RCfg::parse(l)) {
                 None => vec!["error bad configuration line".to_string()],
                 Some(cfg) => {
-                    let ops = Op::parse(&lines[1..]);
+                    let ops = six_ctl(&Op::parse(&lines[1..]));
                     match catch_unwind(AssertUnwindSafe(|| exec_case(&cfg, &ops, deadline, short))) {
                         Ok(v) => v,
                         Err(p) => vec![format!("error panic: {}", panic_message(&p).replace('\n', " "))],
@@ -1122,7 +1132,7 @@ pub fn gen_case(seed: u64, c: u64, env: usize, reps: usize, p_negative: u64, drv
         gc.p_tl = if cfg.caller == "main" { 5 } else { 0 };
         gc.p_unrelated = gc.p_unrelated.max(30);
         let mut g = Gen::new(Rng::new(seed, 0xB22 + c), gc);
-        (format!("gen:{}:{}:{}", prof, seed, c), g.case())
+        (format!("gen:{}:{}:{}", prof, seed, c), six_ctl(&g.case()))
     };
     // The pools are made large enough for the model's plan (unless this is a case about a pool
     // that is too small), so that nearly every experiment is one that must succeed. Which pool
@@ -1261,7 +1271,7 @@ pub fn run_generated(args: &Args, rep: &mut Report, drv: &mut Drv) {
     let read_case = |text: &str| -> Option<(RCfg, Vec<Op>)> {
         let lines: Vec<String> = text.lines().filter(|l| !l.starts_with('#') && !l.trim().is_empty()).map(|s| s.to_string()).collect();
         let cfg = RCfg::parse(lines.first()?)?;
-        Some((cfg, Op::parse(&lines[1..])))
+        Some((cfg, six_ctl(&Op::parse(&lines[1..]))))
     };
     if let Some(f) = args.get("replay") {
         let text = std::fs::read_to_string(&f).unwrap_or_default();
